@@ -139,6 +139,13 @@ def run_trading(rnd, S, cfgk, intensity=1.0, script=None, analyser=False):
                     if held > 0 and price == price and price > 0:
                         call.update(api="combo_buy_rest_sell", args=(oid, held))
                         res = []
+                        lot = 100 if not oid.startswith("688") else 1
+                        if held % lot != 0 or srnd.random() < 0.2:
+                            # odd-lot (or whole) liquidation followed by a large buy in the same bar (shares the volume cap)
+                            oa = api.order_shares(oid, -held)
+                            ob = api.order_shares(oid, srnd.choice([100000, 5000, 1000]))
+                            res = [o for o in (oa, ob) if o is not None]
+                            raise StopIteration
                         o1 = api.order_shares(oid, srnd.choice([100, 300, 500]))
                         o2 = api.order_shares(oid, -max(100, (held // 200) * 100), price_or_style=LimitOrder(round(price * 1.03, 2)))
                         o3 = api.order_shares(oid, -srnd.choice([held, max(100, (held // 100) * 100), held + 100]))
@@ -252,6 +259,8 @@ def run_trading(rnd, S, cfgk, intensity=1.0, script=None, analyser=False):
                         rp = min(1000.0, context.portfolio.accounts["STOCK"].cash_liabilities)
                         call.update(api="repay", args=(rp,))
                         api.repay(rp)
+            except StopIteration:
+                pass
             except Exception as ex:
                 call["exc"] = (type(ex).__name__, str(ex)[:200])
             if call["api"] is None:
